@@ -339,6 +339,8 @@ def rounded_stock_compare(ctx, rule):
 
 
 def run(ctx):
+    from .configtime import refusals_not_swallowed as _no_swallow
+    _no_swallow(ctx, 'C03.R5')
     from .configtime import derived_values as _derived
     _derived(ctx, 'C03.R1', ('Container', 'Plate', 'PlateSlicer', 'Slicer'))
     from .configtime import cached_arrays_not_updated_in_place as _cached_arrays3
@@ -406,8 +408,17 @@ def run(ctx):
     for stmt, target, key, value, before, rt in ffa.stores:
         if not (key and key.startswith('self.contents[')):
             continue
-        added = [l for sg, l in signed_leaves(unround(strip_refs(value) if isinstance(value, Ref) else value)[0], follow=False)
-                 if sg == 1 and user_derived(l)]
+        def terms(e):
+            # the summands of the stored value, named intermediate sums (`new_amount = previous + amount`) opened up
+            e = unround(e)[0]
+            inner = e
+            while isinstance(inner, Ref) and not isinstance(inner.value, Phi):
+                inner = inner.value
+            inner = unround(inner)[0] if not isinstance(inner, Ref) else inner
+            if isinstance(inner, ast.BinOp) and isinstance(inner.op, ast.Add):
+                return terms(inner.left) + terms(inner.right)
+            return [e]
+        added = [l for l in terms(value) if user_derived(l)]
         for leaf in added:
             nst += 1
 
